@@ -12,7 +12,51 @@ use std::sync::Arc;
 
 pub const SLOTS: usize = 6;
 pub const SLOT_NAMES: [&str; SLOTS] = ["a", "b", "list[0]", "list[1]", "map[m]", "nested.x"];
-pub const PAYLOADS: [&str; 8] = ["String", "Vec<i64>", "BTreeMap<String,i64>", "Option<i64>", "()", "struct Inner{z,r:RcAnchor<String>}", "multi-line String", "struct InnerW{z,keep:RcAnchor<String>,w:RcWeakAnchor<String>}"];
+pub const PAYLOADS: [&str; 12] = [
+    "String",
+    "Vec<i64>",
+    "BTreeMap<String,i64>",
+    "Option<i64>",
+    "()",
+    "struct Inner{z,r:RcAnchor<String>}",
+    "multi-line String",
+    "struct InnerW{z,keep:RcAnchor<String>,w:RcWeakAnchor<String>}",
+    "enum EV{N(i64),T(i64,String),S{a:i64},U}",
+    "FlowSeq<Vec<i64>>",
+    "empty Vec<i64>",
+    "FlowMap<BTreeMap<String,i64>>",
+];
+pub const OPTS: [&str; 5] = ["default", "compact", "indent=4", "compact+indent=3", "indent=1"];
+fn ser_opts(i: u8) -> crate::common::SerOpts {
+    use crate::common::SerOpts;
+    let d = SerOpts::default();
+    match i {
+        0 => d,
+        1 => SerOpts { compact: true, ..d },
+        2 => SerOpts { indent: 4, ..d },
+        3 => SerOpts { compact: true, indent: 3, ..d },
+        _ => SerOpts { indent: 1, ..d },
+    }
+}
+
+#[derive(Debug, Clone, PartialEq, Serialize, Deserialize)]
+enum EV {
+    N(i64),
+    T(i64, String),
+    S { a: i64 },
+    U,
+}
+impl EV {
+    fn new(i: u8) -> Self {
+        let n = 7000 + i as i64;
+        match i % 4 {
+            0 => EV::N(n),
+            1 => EV::T(n, "t".into()),
+            2 => EV::S { a: n },
+            _ => EV::U,
+        }
+    }
+}
 
 #[derive(Clone, Debug, Serialize, Deserialize)]
 pub struct Case {
@@ -24,6 +68,9 @@ pub struct Case {
     pub arc: bool,
     /// weak edges: Some(class) = to a live allocation, None = to a dropped one
     pub weak: Vec<Option<u8>>,
+    /// serializer option vector (index into OPTS)
+    #[serde(default)]
+    pub opts: u8,
 }
 
 // ---- Rc flavour
@@ -154,7 +201,7 @@ fn check_rc<P: Serialize + DeserializeOwned + PartialEq + Debug + 'static>(c: &C
     // a weak edge nested below `nested` must come after its strong target: only classes of earlier slots
     let nested_spec = c.weak.get(1).filter(|w| w.map(|cl| (0..5).any(|i| c.classes[i] == cl)).unwrap_or(true));
     let doc = DocRc { a: slot(0), b: slot(1), list: vec![slot(2), slot(3)], map, nested: NestedRc { x: slot(5), w: mk_weak(nested_spec) }, wfield: mk_weak(c.weak.first()), weak };
-    let text = match guarded(|| serde_saphyr::to_string(&doc)) {
+    let text = match guarded(|| serde_saphyr::to_string_with_options(&doc, ser_opts(c.opts).to_lib())) {
         Err(p) => return Err(("panic_ser".into(), p)),
         Ok(Err(e)) => return Err(("ser_error".into(), e.to_string())),
         Ok(Ok(t)) => t,
@@ -259,7 +306,7 @@ fn check_arc<P: Serialize + DeserializeOwned + PartialEq + Debug + Send + Sync +
     };
     let nested_spec = c.weak.get(1).filter(|w| w.map(|cl| (0..5).any(|i| c.classes[i] == cl)).unwrap_or(true));
     let doc = DocArc { a: slot(0), b: slot(1), list: vec![slot(2), slot(3)], map, nested: NestedArc { x: slot(5), w: mk_weak(nested_spec) }, wfield: mk_weak(c.weak.first()), weak };
-    let text = match guarded(|| serde_saphyr::to_string(&doc)) {
+    let text = match guarded(|| serde_saphyr::to_string_with_options(&doc, ser_opts(c.opts).to_lib())) {
         Err(p) => return Err(("panic_ser".into(), p)),
         Ok(Err(e)) => return Err(("ser_error".into(), e.to_string())),
         Ok(Ok(t)) => t,
@@ -364,6 +411,14 @@ impl Prop for C14 {
             (5, false) => check_rc::<Inner>(c, |i| Inner { z: 7000 + i as i64, r: RcAnchor(Rc::new(format!("in{}q", i))) }, |i| Some(format!("in{}q", i))),
             (6, false) => check_rc::<String>(c, |i| format!("v{}q\nsecond line\n", i), s),
             (7, false) => check_rc::<InnerW>(c, InnerW::new, |i| Some(format!("in{}q", i))),
+            (8, false) => check_rc::<EV>(c, EV::new, |i| if i % 4 == 3 { None } else { Some(format!("{}", 7000 + i as i64)) }),
+            (9, false) => check_rc::<serde_saphyr::FlowSeq<Vec<i64>>>(c, |i| serde_saphyr::FlowSeq(vec![7000 + i as i64, 1]), |i| Some(format!("{}", 7000 + i as i64))),
+            (10, false) => check_rc::<Vec<i64>>(c, |_| vec![], |_| None),
+            (11, false) => check_rc::<serde_saphyr::FlowMap<BTreeMap<String, i64>>>(c, |i| serde_saphyr::FlowMap([("k".to_string(), 7000 + i as i64)].into_iter().collect()), |i| Some(format!("{}", 7000 + i as i64))),
+            (8, true) => check_arc::<EV>(c, EV::new, |i| if i % 4 == 3 { None } else { Some(format!("{}", 7000 + i as i64)) }),
+            (9, true) => check_arc::<serde_saphyr::FlowSeq<Vec<i64>>>(c, |i| serde_saphyr::FlowSeq(vec![7000 + i as i64, 1]), |i| Some(format!("{}", 7000 + i as i64))),
+            (10, true) => check_arc::<Vec<i64>>(c, |_| vec![], |_| None),
+            (11, true) => check_arc::<serde_saphyr::FlowMap<BTreeMap<String, i64>>>(c, |i| serde_saphyr::FlowMap([("k".to_string(), 7000 + i as i64)].into_iter().collect()), |i| Some(format!("{}", 7000 + i as i64))),
             (0, true) => check_arc::<String>(c, |i| format!("v{}q", i), s),
             (1, true) => check_arc::<Vec<i64>>(c, |i| vec![7000 + i as i64, 1], |i| Some(format!("{}", 7000 + i as i64))),
             (2, true) => check_arc::<BTreeMap<String, i64>>(c, |i| [("k".to_string(), 7000 + i as i64)].into_iter().collect(), |i| Some(format!("{}", 7000 + i as i64))),
@@ -423,6 +478,9 @@ impl Prop for C14 {
         if c.arc {
             out.push(Case { arc: false, ..c.clone() });
         }
+        if c.opts != 0 {
+            out.push(Case { opts: 0, ..c.clone() });
+        }
         if c.payload != 0 {
             out.push(Case { payload: 0, ..c.clone() });
         }
@@ -430,7 +488,8 @@ impl Prop for C14 {
         out
     }
     fn key(&self, c: &Case, clause: &str) -> String {
-        format!("{}|classes={:?}|weak={:?}|{}|{}", clause, c.classes, c.weak, PAYLOADS[c.payload as usize], if c.arc { "Arc" } else { "Rc" })
+        let o = if c.opts == 0 { String::new() } else { format!("|{}", OPTS[c.opts as usize]) };
+        format!("{}|classes={:?}|weak={:?}|{}|{}{}", clause, c.classes, c.weak, PAYLOADS[c.payload as usize], if c.arc { "Arc" } else { "Rc" }, o)
     }
 }
 
@@ -668,7 +727,9 @@ pub fn run(ctx: &Ctx) -> i32 {
             for weak in weak_sets {
                 for payload in 0..PAYLOADS.len() as u8 {
                     for arc in [false, true] {
-                        cases.push(Case { classes: padded.clone(), k: k as u8, payload, arc, weak: weak.clone() });
+                        for opts in 0..ctx.tier.pick(4u8, OPTS.len() as u8) {
+                            cases.push(Case { classes: padded.clone(), k: k as u8, payload, arc, weak: weak.clone(), opts });
+                        }
                     }
                 }
             }
